@@ -63,6 +63,10 @@ func call(overrideFN *string, namespace types.EnvType, fIn types.MalType, args .
 	default:
 		if !finType.IsVariadic() {
 			minArgs, maxArgs = finType.NumIn(), finType.NumIn()
+			if contextRequired {
+				// the context is injected, it is not a lisp argument
+				minArgs, maxArgs = minArgs-1, maxArgs-1
+			}
 		} else {
 			minArgs, maxArgs = 0, unlimitedArgments
 		}
@@ -152,14 +156,14 @@ func _recover(fFullName string, err *error) {
 const unlimitedArgments = 1000
 
 func _args_ctx(ctx context.Context, minParams, maxParams int, args []types.MalType) []reflect.Value {
-	if len(args) < minParams-1 || len(args) > maxParams-1 {
+	if len(args) < minParams || len(args) > maxParams {
 		if maxParams == unlimitedArgments {
-			panic(fmt.Errorf("wrong number of arguments (%d instead of a minimum of %d)", len(args), minParams-1))
+			panic(fmt.Errorf("wrong number of arguments (%d instead of a minimum of %d)", len(args), minParams))
 		} else {
 			if minParams == maxParams {
-				panic(fmt.Errorf("wrong number of arguments (%d instead of %d)", len(args), minParams-1))
+				panic(fmt.Errorf("wrong number of arguments (%d instead of %d)", len(args), minParams))
 			} else {
-				panic(fmt.Errorf("wrong number of arguments (%d instead of %d…%d)", len(args), minParams-1, maxParams-1))
+				panic(fmt.Errorf("wrong number of arguments (%d instead of %d…%d)", len(args), minParams, maxParams))
 			}
 		}
 	}
